@@ -31,6 +31,7 @@ class C15(Engine):
     prop = "C15"
     title = "every simulator survives every opcode from every state, deterministically"
     quick_budget = 45
+    quick_runs = 8000
     thorough_budget = 1200
     rule = ("run i = batch of 16 cases; case = (one of the 15 simulators, 64-byte code window whose first opcode unit is stratified over "
             "all 256 byte values / a seeded 16-bit value, seeded operands, a data window at an address-space edge, registers set only "
